@@ -534,7 +534,9 @@ func genStickyPlan(seed uint64, tier string) *Plan {
 		borrowDepth++
 		p := genLifetimePlan(seed^0x15c04, tier)
 		borrowDepth--
-		if p.Variant != "tcp-backends" && p.Variant != "sticky" {
+		// (not the purge / repin variants: they look into the pin table from the harness, which the race detector of
+		// C09 - it borrows these worlds in turn - would hold against the program)
+		if p.Variant != "tcp-backends" && p.Variant != "sticky" && p.Variant != "purge" && p.Variant != "repin" {
 			p.Variant = "lifetime:" + p.Variant
 			return p
 		}
